@@ -101,12 +101,17 @@ Proof.
   intros R Ho. unfold queue. pose proof (Forall2_nth_error _ _ _ b (rw_batches _ _ _ R)) as H.
   destruct (nth_error (w_batches wt) b) as [bt|], (nth_error (w_batches ws) b) as [bs|];
     cbn in H; try contradiction; cbn; auto.
-  unfold rel_batch in H. destruct H as (V1 & V2 & O & F). repeat split; auto.
+  unfold rel_batch in H. destruct H as (V1 & V2 & O & F).
+  split; [reflexivity|split; [|reflexivity]].
   destruct R as [S D G B I]. constructor; cbn; auto.
-  apply Forall2_upd; [exact B|]. unfold rel_batch; cbn. repeat split; auto.
+  apply Forall2_upd; [exact B|]. unfold rel_batch; cbn.
+  split; [exact V1|split; [exact V2|split]].
   - rewrite V1, V2, O, map_app. reflexivity.
-  - apply Forall_app. split; [exact F|]. constructor; [exact Ho|constructor].
+  - apply Forall_app. split; [exact F|]. rewrite V2. constructor; [exact Ho|constructor].
 Qed.
+
+Lemma small1 o : small_bop o -> Forall small_bop [o].
+Proof. intros H. constructor; [exact H|constructor]. Qed.
 
 Lemma step_refines p wt ws o : rel_world p wt ws -> tbl_ok o ->
   snd (step idn wt (set_view (Some p) o)) = snd (step idn ws (set_view None o)) /\
@@ -117,25 +122,28 @@ Proof.
     cbn [set_view step].
   - (* Put *)
     split; [reflexivity|].
-    exact (rel_write p wt ws [BPut k x] R (Forall_cons _ Hok (Forall_nil _))).
+    exact (rel_write p wt ws [BPut k x] R (small1 (BPut k x) Hok)).
   - split; [reflexivity|].
-    exact (rel_write p wt ws [BDel k] R (Forall_cons _ I (Forall_nil _))).
+    exact (rel_write p wt ws [BDel k] R (small1 (BDel k) I)).
   - split; [reflexivity|].
-    exact (rel_write p wt ws [BDelRange s e] R (Forall_cons _ I (Forall_nil _))).
+    exact (rel_write p wt ws [BDelRange s e] R (small1 (BDelRange s e) I)).
   - (* Has *)
-    cbn. repeat split; auto. unfold has. rewrite (rw_db _ _ _ R), get_view. reflexivity.
-  - cbn. repeat split; auto. rewrite (rw_db _ _ _ R), get_view. reflexivity.
+    cbn. split; [|split; [exact R|reflexivity]].
+    unfold has. rewrite (rw_db _ _ _ R), get_view. reflexivity.
+  - cbn. split; [|split; [exact R|reflexivity]].
+    rewrite (rw_db _ _ _ R), get_view. reflexivity.
   - (* NewBatch *)
-    cbn. repeat split; auto. destruct R as [S D G B I]. constructor; cbn; auto.
+    cbn. split; [reflexivity|split; [|reflexivity]].
+    destruct R as [S D G B I]. constructor; cbn; auto.
     apply Forall2_app; [exact B|]. constructor; [|constructor].
-    unfold rel_batch; cbn. repeat split; auto.
+    unfold rel_batch; cbn. auto.
   - (* b.Put *)
     destruct (queue_refines p wt ws b (BPut k x) R Hok) as (A & B & C).
-    repeat split; auto. rewrite C. reflexivity.
+    split; [exact A|split; [exact B|]]. rewrite C. reflexivity.
   - destruct (queue_refines p wt ws b (BDel k) R I) as (A & B & C).
-    repeat split; auto. rewrite C. reflexivity.
+    split; [exact A|split; [exact B|]]. rewrite C. reflexivity.
   - destruct (queue_refines p wt ws b (BDelRange s e) R I) as (A & B & C).
-    repeat split; auto. rewrite C. reflexivity.
+    split; [exact A|split; [exact B|]]. rewrite C. reflexivity.
   - (* b.Write *)
     pose proof (Forall2_nth_error _ _ _ b (rw_batches _ _ _ R)) as H.
     destruct (nth_error (w_batches wt) b) as [bt|], (nth_error (w_batches ws) b) as [bs|];
@@ -146,25 +154,30 @@ Proof.
     pose proof (Forall2_nth_error _ _ _ b (rw_batches _ _ _ R)) as H.
     destruct (nth_error (w_batches wt) b) as [bt|], (nth_error (w_batches ws) b) as [bs|];
       cbn in H; try contradiction; cbn; auto.
-    unfold rel_batch in H. destruct H as (V1 & V2 & O & F). repeat split; auto.
+    unfold rel_batch in H. destruct H as (V1 & V2 & O & F).
+    split; [reflexivity|split; [|reflexivity]].
     destruct R as [S D G B I]. constructor; cbn; auto.
-    apply Forall2_upd; [exact B|]. unfold rel_batch; cbn. repeat split; auto.
+    apply Forall2_upd; [exact B|]. unfold rel_batch; cbn. auto.
   - (* b.Replay onto the view itself *)
     pose proof (Forall2_nth_error _ _ _ b (rw_batches _ _ _ R)) as H.
     destruct (nth_error (w_batches wt) b) as [bt|], (nth_error (w_batches ws) b) as [bs|];
       cbn in H; try contradiction; cbn; auto.
-    unfold rel_batch in H. destruct H as (V1 & V2 & O & F). rewrite V1, V2, O, replay_view_self, replay_view_none.
+    unfold rel_batch in H. destruct H as (V1 & V2 & O & F).
+    rewrite V1, V2, O, replay_view_self, replay_view_none.
     cbn. split; [reflexivity|]. exact (rel_write p wt ws (b_ops bs) R F).
   - (* NewIterator *)
-    cbn. repeat split; auto. destruct R as [S D G B I]. constructor; cbn; auto.
+    cbn. split; [reflexivity|split; [|reflexivity]].
+    destruct R as [S D G B I]. constructor; cbn; auto.
     apply Forall2_app; [exact I|]. constructor; [|constructor].
-    unfold rel_iter; cbn. repeat split; auto. rewrite D. symmetry. apply iter_view.
+    unfold rel_iter; cbn. split; [reflexivity|split; [reflexivity|]].
+    rewrite D. symmetry. apply iter_view.
   - (* Next *)
     pose proof (Forall2_nth_error _ _ _ i (rw_iters _ _ _ R)) as H.
     destruct (nth_error (w_iters wt) i) as [it|], (nth_error (w_iters ws) i) as [is_|];
       cbn in H; try contradiction; cbn; auto.
-    unfold rel_iter in H. destruct H as (V1 & V2 & O). rewrite O. destruct (i_rest it) as [|[k x] r]; cbn; auto.
-    rewrite V1, V2. cbn. repeat split; auto.
+    unfold rel_iter in H. destruct H as (V1 & V2 & O). rewrite O.
+    destruct (i_rest it) as [|[k x] r]; cbn; auto.
+    rewrite V1, V2. cbn. split; [reflexivity|split; [|reflexivity]].
     destruct R as [S D G B I]. constructor; cbn; auto.
     apply Forall2_upd; [exact I|]. unfold rel_iter; cbn. auto.
   - contradiction.
@@ -182,7 +195,7 @@ Proof.
   destruct (run_cons idn (set_view None o) (map (set_view None) r) ws) as [-> ->].
   destruct (step_refines p wt ws o R Fo) as (A & B & C).
   destruct (IH _ _ B Fr) as (A' & B' & C').
-  repeat split; auto. - rewrite A, A'. reflexivity. - rewrite C', C. reflexivity.
+  split; [rewrite A, A'; reflexivity|split; [exact B'|]]. rewrite C', C. reflexivity.
 Qed.
 
 Theorem table_refines p h m :
@@ -195,8 +208,8 @@ Theorem table_refines p h m :
 Proof.
   intros S G F.
   assert (R : rel_world p (init m) (init (view_kv p m))) by (constructor; cbn; auto).
-  destruct (run_refines p h _ _ R F) as (A & B & C). repeat split; auto.
-  symmetry. apply (rw_db _ _ _ B).
+  destruct (run_refines p h _ _ R F) as (A & B & C).
+  split; [exact A|split; [|exact C]]. symmetry. apply (rw_db _ _ _ B).
 Qed.
 
 (* ---------- batches ---------- *)
@@ -228,6 +241,23 @@ Proof.
     destruct (IH _ _ H') as (A & B & C). rewrite A, B, C. cbn. rewrite <- app_assoc. auto.
 Qed.
 
+Lemma fresh_batch norm w v os :
+  let b := length (w_batches w) in
+  let w' := snd (run norm (ONewBatch v :: map (to_op b) os) w) in
+  w_db w' = w_db w /\
+  nth_error (w_batches w') b =
+    Some {| b_view := v; b_ops := map (fun o => norm (vbop v o)) os |}.
+Proof.
+  intros b w'. unfold w'.
+  destruct (run_cons norm (ONewBatch v) (map (to_op b) os) w) as [_ ->].
+  remember (fst (step norm w (ONewBatch v))) as w1 eqn:E1.
+  assert (H1 : nth_error (w_batches w1) b = Some {| b_view := v; b_ops := [] |}).
+  { subst w1. cbn. rewrite nth_error_app2 by lia. unfold b. rewrite Nat.sub_diag. reflexivity. }
+  assert (Hdb : w_db w1 = w_db w) by (subst w1; reflexivity).
+  clear E1. destruct (queue_many norm b os w1 _ H1) as (A & B & C).
+  split; [rewrite B; exact Hdb|exact C].
+Qed.
+
 (* building a batch changes nothing; Write applies exactly the queued ops, in order *)
 Theorem batch_all_or_nothing norm w v os :
   let b := length (w_batches w) in
@@ -235,17 +265,11 @@ Theorem batch_all_or_nothing norm w v os :
   w_db (snd (run norm h w)) = w_db w /\
   w_db (snd (run norm (h ++ [OBWrite b]) w)) = write (map (fun o => norm (vbop v o)) os) (w_db w).
 Proof.
-  intros b h. unfold h.
-  set (w1 := fst (step norm w (ONewBatch v))).
-  assert (H1 : nth_error (w_batches w1) b = Some {| b_view := v; b_ops := [] |}).
-  { cbn. rewrite nth_error_app2 by lia. unfold b. rewrite Nat.sub_diag. reflexivity. }
-  destruct (queue_many norm b os w1 _ H1) as (A & B & C). cbn in C.
-  destruct (run_cons norm (ONewBatch v) (map (to_op b) os) w) as [_ E]. fold w1 in E.
-  split.
-  - rewrite E, B. reflexivity.
-  - rewrite run_app_snd, E.
-    destruct (run_cons norm (OBWrite b) [] (snd (run norm (map (to_op b) os) w1))) as [_ ->].
-    cbn [run snd step]. rewrite C. cbn. rewrite B. reflexivity.
+  intros b h. unfold h. pose proof (fresh_batch norm w v os) as FB. cbv zeta in FB. fold b in FB.
+  destruct FB as [Hd Hn]. split; [exact Hd|].
+  rewrite run_app_snd.
+  remember (snd (run norm (ONewBatch v :: map (to_op b) os) w)) as w' eqn:E. clear E.
+  cbn [run step]. rewrite Hn. cbn. rewrite Hd. reflexivity.
 Qed.
 
 (* ops that are not writes leave the store untouched (in particular everything done to
@@ -281,16 +305,12 @@ Theorem batch_replay_eq_write norm w v os :
   let w' := snd (run norm h w) in
   step norm w' (OBReplay b v) = (fst (step norm w' (OBWrite b)), UOk).
 Proof.
-  intros b h N w'. unfold w', h.
-  set (w1 := fst (step norm w (ONewBatch v))).
-  assert (H1 : nth_error (w_batches w1) b = Some {| b_view := v; b_ops := [] |}).
-  { cbn. rewrite nth_error_app2 by lia. unfold b. rewrite Nat.sub_diag. reflexivity. }
-  destruct (queue_many norm b os w1 _ H1) as (A & B & C). cbn in C.
-  destruct (run_cons norm (ONewBatch v) (map (to_op b) os) w) as [_ E]. fold w1 in E.
+  intros b h N w'. unfold w', h. pose proof (fresh_batch norm w v os) as FB. cbv zeta in FB.
+  fold b in FB. destruct FB as [Hd Hn].
+  remember (snd (run norm (ONewBatch v :: map (to_op b) os) w)) as w2 eqn:E. clear E.
   assert (M : map (fun o => norm (vbop v o)) os = map (vbop v) os).
   { apply map_ext. intros o. apply N. }
-  rewrite E. cbn [step]. rewrite C. cbn [b_view b_ops fst]. rewrite M, replay_view_self.
-  reflexivity.
+  cbn [step]. rewrite Hn. cbn [b_view b_ops fst]. rewrite M, replay_view_self. reflexivity.
 Qed.
 
 (* ---------- iterators ---------- *)
@@ -344,7 +364,10 @@ Qed.
 
 (* ---------- memorydb = spec ---------- *)
 Lemma step_norm_ext n1 n2 w o : (forall x, n1 x = n2 x) -> step n1 w o = step n2 w o.
-Proof. intros H. destruct o; cbn; auto; unfold queue; rewrite H; reflexivity. Qed.
+Proof.
+  intros H. destruct o; cbn; auto; unfold queue;
+    (destruct (nth_error (w_batches w) b); [rewrite H|]; reflexivity).
+Qed.
 
 Lemma run_norm_ext n1 n2 h : (forall x, n1 x = n2 x) -> forall w, run n1 h w = run n2 h w.
 Proof.
@@ -354,3 +377,60 @@ Qed.
 
 Theorem memdb_refines_spec h w : run mem_norm h w = run idn h w.
 Proof. apply run_norm_ext. exact mem_norm_id. Qed.
+
+(* ---------- packaged statements for Properties/C23.v ---------- *)
+Lemma blt_strict_total_order :
+  (forall a, blt a a = false) /\
+  (forall a b c, blt a b = true -> blt b c = true -> blt a c = true) /\
+  (forall a b, blt a b = false -> blt b a = false -> a = b) /\
+  (forall a b, beq a b = true <-> a = b).
+Proof. repeat split; intros; try (apply beq_eq; assumption);
+  eauto using blt_irrefl, blt_trans, blt_total. Qed.
+
+Lemma store_is_map k k' v m : sorted m ->
+  sorted (put k' v m) /\ sorted (delete k' m) /\
+  get k (put k' v m) = (if beq k k' then Some v else get k m) /\
+  get k (delete k' m) = (if beq k k' then None else get k m) /\
+  (forall x, In (k, x) m <-> get k m = Some x).
+Proof.
+  intros S. repeat split; auto using sorted_put, sorted_delete, get_put, get_delete, get_In.
+  apply In_get. exact S.
+Qed.
+
+Lemma delete_range_spec s e m : sorted m ->
+  sorted (delete_range s e m) /\
+  (forall k, get k (delete_range s e m) = if in_range s e k then None else get k m) /\
+  (forall k, in_range s e k = true <->
+     (s = None \/ exists s', s = Some s' /\ ble s' k = true) /\
+     (e = None \/ exists e', e = Some e' /\ blt k e' = true)) /\
+  delete_range s (Some []) m = m /\
+  delete_range None None m = [] /\
+  delete_range (Some []) e m = delete_range None e m /\
+  (forall s' e', s = Some s' -> e = Some e' -> ble e' s' = true -> delete_range s e m = m).
+Proof.
+  intros S. split; [apply sorted_delete_range, S|]. split; [intros; apply get_delete_range|].
+  split; [intros; apply in_range_iff|]. split; [apply delete_range_empty_end|].
+  split; [apply delete_range_nil_nil|]. split; [apply delete_range_start_empty|].
+  intros s' e' -> ->. apply delete_range_inverted.
+Qed.
+
+Lemma iterator_sorted_complete v pre st m : sorted m ->
+  sorted (viter_items v pre st m) /\
+  forall k x, In (k, x) (viter_items v pre st m) <->
+    get k m = Some x /\ is_prefix (vkey v pre) k = true /\ ble (vkey v pre ++ st) k = true.
+Proof.
+  intros S. unfold viter_items. split; [apply sorted_iter_items, S|].
+  intros k x. apply In_iter_items. exact S.
+Qed.
+
+Lemma table_nil_end_unbounded_refuted :
+  exists p m, sorted m /\
+    view_kv p (apply (vbop (Some p) (BDelRange None None)) m) <>
+    apply (BDelRange None None) (view_kv p m).
+Proof.
+  exists [], [(repeat 255%N 33, [1%N])]. split; [cbn; auto|]. vm_compute. discriminate.
+Qed.
+
+Lemma memdb_old_batch_encoding_refuted :
+  exists m, sorted m /\ write [dec_old (enc (BDel []))] m <> write [BDel []] m.
+Proof. exists [([97%N], [1%N])]. split; [cbn; auto|]. vm_compute. discriminate. Qed.
